@@ -24,8 +24,8 @@ V = lambda n: ('var', n)
 PI = ('par', 'pi')
 LN10 = ('ln', ('cst', 10))
 
-CANON_VARS = ['i', 'u0', 'u1', 'u2', 'u3', 'z0', 's0', 's1', 'atan']
-CANON_PARS = ['a', 'b', 'n', 'pi']
+CANON_VARS = ['i', 'u0', 'u1', 'u2', 'u3', 'z0', 's0', 's1', 'atan', 'denom']
+CANON_PARS = ['a', 'b', 'n', 'pi', 'tiny']
 
 
 class NeedFact(TranslationError):
@@ -37,16 +37,17 @@ class NeedFact(TranslationError):
 class AT:
     """Abstract 1-D (or meshed) tensor."""
     def __init__(self, term, length, rg=False, fresh=False, rand=False, perm=False, mesh=None, flat=True, zero=False,
-                 wrap=None):
+                 wrap=None, clamp=None):
         self.term, self.length = term, length
+        self.clamp = clamp        # None | (lo term, hi term): torch.clamp(term, lo, hi), only acos may follow
         self.rg, self.fresh, self.rand, self.perm = rg, fresh, rand, perm
         self.mesh = mesh          # None | (position, indexing, [lengths of all axes])
         self.flat = flat
         self.zero = zero
-        self.wrap = wrap          # None | ('acos',) | ('phi', yterm, xterm)
+        self.wrap = wrap          # None | ('acos',) | ('acos', lo, hi) (clamped argument) | ('atan2', yterm, xterm)
 
     def like(self, term, **kw):
-        d = dict(rg=self.rg, fresh=self.fresh, rand=self.rand, perm=self.perm, mesh=self.mesh, flat=self.flat, wrap=self.wrap, zero=self.zero)
+        d = dict(rg=self.rg, fresh=self.fresh, rand=self.rand, perm=self.perm, mesh=self.mesh, flat=self.flat, wrap=self.wrap, zero=self.zero, clamp=self.clamp)
         d.update(kw)
         length = d.pop('length', self.length)
         return AT(term, length, **d)
@@ -77,6 +78,7 @@ class GenInterp(Interp):
         self.rng = {'ctor': [], 'call': []}
         self.facts = {}
         self.n_draw = {'u': 0, 'z': 0, 's': 0}
+        self.leaf_defs = {}           # leaf m<k> -> (argument term, lower bound term): leaf = max(argument, bound)
         self.perm_pos = {}            # id(term) of a permuted tensor -> (phase, position) of its randperm call
         self.draw_pos = {}            # leaf name -> (phase, position in that phase's RNG call list)
 
@@ -152,6 +154,8 @@ class GenInterp(Interp):
             return ('%dictkeys', base)
         if isinstance(base, Builtin) and f'{base.name}.{a}' == 'numpy.pi':
             return PI
+        if isinstance(base, Opaque) and base.what == 'finfo' and a == 'tiny':
+            return ('par', 'tiny')        # smallest positive normal float: a positive constant
         # re-dispatch without evaluating n.value twice: build a constant node
         return super().attribute(ast.Attribute(value=_Pre(base), attr=a, lineno=getattr(n, 'lineno', 0)), env)
 
@@ -182,6 +186,10 @@ class GenInterp(Interp):
             return t.like(t.term)
         if meth == 'detach' and not args and not kwargs:
             return t.like(t.term, rg=False)
+        if meth == 'abs' and not args and not kwargs:
+            if t.wrap or t.clamp:
+                self.err(n, '.abs() of an acos/atan2/clamp result')
+            return t.like(('abs', t.term), zero=False)
         self.err(n, f'tensor method .{meth} not accepted')
 
     def _flatten(self, t):
@@ -244,8 +252,8 @@ class GenInterp(Interp):
                 if a.mesh != b.mesh or a.flat != b.flat:
                     if not (a.mesh is None or b.mesh is None):
                         self.err(node, 'element-wise operation on tensors from different meshes')
-                if a.wrap or b.wrap:
-                    self.err(node, 'arithmetic on acos/atan2 results of two tensors')
+                if a.wrap or b.wrap or a.clamp or b.clamp:
+                    self.err(node, 'arithmetic on acos/atan2/clamp results of two tensors')
                 base = a if a.mesh is not None or b.mesh is None else b
                 zero = False
                 return AT((tag, a.term, b.term), base.length, rg=a.rg or b.rg, fresh=a.fresh or b.fresh, rand=a.rand or b.rand,
@@ -255,6 +263,8 @@ class GenInterp(Interp):
             term = (tag, t.term, sv) if left else (tag, sv, t.term)
             if tag == 'div' and not left:
                 self.err(node, 'scalar / tensor')
+            if t.clamp is not None:
+                self.err(node, 'arithmetic on a clamp result')
             if t.wrap is not None:
                 if t.wrap[0] != 'atan2':
                     self.err(node, 'arithmetic on an acos result')
@@ -268,8 +278,8 @@ class GenInterp(Interp):
         un = {'torch.cos': 'cos', 'torch.sqrt': 'sqrt', 'torch.log': 'ln', 'torch.abs': 'abs', 'torch.sin': 'sin', 'torch.exp': 'exp'}
         if name in un and len(args) == 1 and not kwargs and isinstance(args[0], AT):
             t = args[0]
-            if t.wrap:
-                self.err(n, f'{name} of an acos/atan2 result')
+            if t.wrap or t.clamp:
+                self.err(n, f'{name} of an acos/atan2/clamp result')
             return t.like((un[name], t.term), zero=False)
         if name == 'torch.arange':
             if len(args) != 1 or kwargs:
@@ -334,13 +344,33 @@ class GenInterp(Interp):
                 self.err(n, 'torch.meshgrid of 1-D tensors expected')
             lens = [t.length for t in ts]
             return tuple(t.like(t.term, mesh=(k, idx, lens), flat=False) for k, t in enumerate(ts))
+        if name == 'torch.finfo':
+            if len(args) != 1 or kwargs or not isinstance(args[0], Opaque) or args[0].what != 'dtype':
+                self.err(n, 'torch.finfo(<tensor>.dtype) expected')
+            return Opaque('finfo')
+        if name == 'torch.clamp' and len(args) == 1 and set(kwargs) == {'min'}:
+            # clamp from below only: a fresh leaf  m = max(argument, bound)  with a recorded definition
+            t = args[0]
+            lo = self.scalar(n, kwargs['min'])
+            if not isinstance(t, AT) or t.wrap or t.clamp or t.mesh is not None or lo != ('par', 'tiny'):
+                self.err(n, 'torch.clamp(<1-D tensor>, min=torch.finfo(dtype).tiny) expected')
+            name_ = f'm{len(self.leaf_defs)}'
+            self.leaf_defs[name_] = (t.term, lo)
+            return t.like(V(name_), zero=False)
+        if name == 'torch.clamp':
+            if len(args) != 3 or kwargs or not isinstance(args[0], AT) or args[0].wrap or args[0].clamp:
+                self.err(n, 'torch.clamp(tensor, lo, hi) expected')
+            lo, hi = self.scalar(n, args[1]), self.scalar(n, args[2])
+            if lo[0] not in ('cst', 'cstq') or hi[0] not in ('cst', 'cstq'):
+                self.err(n, 'torch.clamp bounds must be literals')
+            return args[0].like(args[0].term, clamp=(lo, hi))
         if name == 'torch.acos':
             t = args[0]
             if len(args) != 1 or kwargs or not isinstance(t, AT) or t.wrap:
                 self.err(n, 'torch.acos usage')
-            return t.like(t.term, wrap=('acos',), rg=False)
+            return t.like(t.term, wrap=('acos',) + (tuple(t.clamp) if t.clamp else ()), rg=False, clamp=None)
         if name == 'torch.atan2':
-            if len(args) != 2 or kwargs or not all(isinstance(t, AT) and not t.wrap for t in args):
+            if len(args) != 2 or kwargs or not all(isinstance(t, AT) and not t.wrap and not t.clamp for t in args):
                 self.err(n, 'torch.atan2 usage')
             y, x = args
             self.same_len(n, y, x)
@@ -489,7 +519,7 @@ def run_entry(repo, ckey, method, noisy=None):
     else:
         raise TranslationError(F, 0, 'guards did not converge')
     ent = {'cls': ckey, 'method': method, 'noisy': bool(noisy), 'pos_guard': any(k.endswith('LtE 0') for k in facts) or method.startswith('log-spaced'),
-           'ctor_rng': list(I.rng['ctor']), 'call_rng': [], 'tensors': [], 'mesh': 'none', 'getter': 'missing'}
+           'ctor_rng': list(I.rng['ctor']), 'call_rng': [], 'tensors': [], 'defs': [], 'mesh': 'none', 'getter': 'missing'}
     size = obj.attrs.get('size')
     if size is None:
         raise TranslationError(F, 0, f'{conf["cls"]}: self.size not set')
@@ -516,18 +546,35 @@ def run_entry(repo, ckey, method, noisy=None):
         raise TranslationError(F, 0, f'{conf["cls"]}({method}).get_examples() does not return tensors')
     meshes = set()
     for pos, t in enumerate(ts):
-        terms = [t.term] + (list(t.wrap[1:]) if t.wrap and t.wrap[0] == 'atan2' else [])
+        if t.clamp is not None:
+            raise TranslationError(F, 0, f'{conf["cls"]}({method}): a clamped tensor is returned directly (not modelled)')
+        terms = [t.term] + (list(t.wrap[1:]) if t.wrap else [])
+        n_main = len(terms)
+        used_defs = []
+        changed = True
+        while changed:                    # definitions of the max-leaves occurring in the formulas
+            changed = False
+            for x in list(terms):
+                for l in ir.leaves(x):
+                    if l in I.leaf_defs and l not in used_defs:
+                        used_defs.append(l)
+                        terms.append(I.leaf_defs[l][0])
+                        changed = True
+        if len(used_defs) > 1:
+            raise TranslationError(F, 0, f'{conf["cls"]}({method}): more than one clamped denominator in one tensor')
         pars = set()
         leaves = set()
         for x in terms:
             pars |= ir.symbols(x)[0]
             leaves |= ir.leaves(x)
-        axes = {p[1:] for p in pars if p != 'pi'}
+        axes = {p[1:] for p in pars if p not in ('pi', 'tiny')}
         if len(axes) > 1:
             raise TranslationError(F, 0, f'{conf["cls"]}({method}): tensor {pos} mixes the parameters of several axes')
         axis = int(axes.pop()) if axes else pos
-        pmap = {f'a{axis}': 'a', f'b{axis}': 'b', f'n{axis}': 'n', 'pi': 'pi'}
+        pmap = {f'a{axis}': 'a', f'b{axis}': 'b', f'n{axis}': 'n', 'pi': 'pi', 'tiny': 'tiny'}
         vmap = {'i': 'i', 'atan': 'atan'}
+        for l in used_defs:
+            vmap[l] = 'denom'
         for kind in 'uzs':
             names = sorted((l for l in leaves if l[0] == kind and l[1:].isdigit()), key=lambda s: int(s[1:]))
             for k, nm in enumerate(names):
@@ -542,14 +589,18 @@ def run_entry(repo, ckey, method, noisy=None):
                 raise TranslationError(F, 0, f'{conf["cls"]}({method}): symbols outside the canonical set: {sorted(bad)}')
         wrap = 'none'
         if t.wrap:
-            wrap = 'acos' if t.wrap[0] == 'acos' else 'phi'
+            wrap = ('acos_clamp' if len(t.wrap) == 3 else 'acos') if t.wrap[0] == 'acos' else 'phi'
         noise = any(l.startswith('z') for l in ir.leaves(cterms[0]))
         if t.mesh is not None:
             meshes.add((t.mesh[1], t.flat))
         inv = {v: k for k, v in vmap.items()}
         draws = {c: list(I.draw_pos[inv[c]]) for c in sorted(set().union(*[ir.leaves(x) for x in cterms])) if c in inv and inv[c] in I.draw_pos}
         ppos = I.perm_pos.get(id(t.term))
-        ent['tensors'].append({'draws': draws, 'perm_pos': list(ppos) if ppos else None, 'term': cterms[0], 'aux': cterms[1:], 'wrap': wrap, 'len_ok': factors(t.length) == factors(I.scalar(get_fn, size)) and t.flat,
+        defs = [{'leaf': 'denom', 'arg': cterms[n_main + j], 'lo': rename(I.leaf_defs[l][1], vmap, pmap)} for j, l in enumerate(used_defs)]
+        for dd in defs:
+            if dd not in ent['defs']:
+                ent['defs'].append(dd)
+        ent['tensors'].append({'draws': draws, 'perm_pos': list(ppos) if ppos else None, 'defs': defs, 'term': cterms[0], 'aux': cterms[1:n_main], 'wrap': wrap, 'len_ok': factors(t.length) == factors(I.scalar(get_fn, size)) and t.flat,
                                'rg': bool(t.rg), 'fresh': bool(t.fresh), 'noise': noise, 'rand': bool(t.rand), 'perm': bool(t.perm),
                                'par_axis': axis, 'mesh_pos': None if t.mesh is None else t.mesh[0]})
     if len(meshes) > 1:
@@ -615,7 +666,8 @@ def emit(table):
             out.append(f'  Definition term_{k} : expr :=\n    {coq_term(t["term"])}.')
             for j, a in enumerate(t['aux']):
                 out.append(f'  Definition aux_{k}_{j} : expr :=\n    {coq_term(a)}.')
-            wrap = {'none': 'WNone', 'acos': 'WAcos'}.get(t['wrap']) or f'(WPhi aux_{k}_0 aux_{k}_1)'
+            wrap = {'none': 'WNone', 'acos': 'WAcos'}.get(t['wrap']) or \
+                (f'(WAcosClamp aux_{k}_0 aux_{k}_1)' if t['wrap'] == 'acos_clamp' else f'(WPhi aux_{k}_0 aux_{k}_1)')
             mp = 'None' if t['mesh_pos'] is None else f'(Some {t["mesh_pos"]}%nat)'
             out.append(f'  Definition tensor_{k} : tinfo := mk_tinfo term_{k} {wrap} {coq_bool(t["len_ok"])} {coq_bool(t["rg"])} '
                        f'{coq_bool(t["fresh"])} {coq_bool(t["noise"])} {coq_bool(t["rand"])} {coq_bool(t["perm"])} {t["par_axis"]}%nat {mp}.')
@@ -624,11 +676,16 @@ def emit(table):
                 key = (t['term'], e['pos_guard'])
                 if key not in det:
                     det.append(key)
+        dnames = []
+        for j, dd in enumerate(e['defs']):
+            out.append(f'  Definition def_{j}_arg : expr :=\n    {coq_term(dd["arg"])}.')
+            out.append(f'  Definition def_{j}_lo : expr :=\n    {coq_term(dd["lo"])}.')
+            dnames.append(f'(v_{dd["leaf"]}, def_{j}_arg, def_{j}_lo)')
         rl = lambda l: '[' + '; '.join({'rand': 'RRand', 'normal': 'RNormal', 'randperm': 'RRandperm', 'randint': 'RRandint'}[x] for x in l) + ']'
         getter = {'lambda': 'GetLambda', 'callresult': 'GetCallResult', 'missing': 'GetMissing'}[e['getter']]
         mesh = {'none': 'MeshNone', 'ij': 'MeshIJ', 'xy': 'MeshXY', 'default': 'MeshDefault', 'other': 'MeshOther', 'unflattened': 'MeshUnflattened'}[e['mesh']]
         out.append(f'  Definition entry : entry := mk_entry {e["cls"]} "{e["method"]}" {coq_bool(e["noisy"])} {getter} {coq_bool(e["pos_guard"])} '
-                   f'[{"; ".join(tnames)}] {mesh} {rl(e["ctor_rng"])} {rl(e["call_rng"])}.')
+                   f'[{"; ".join(tnames)}] {mesh} {rl(e["ctor_rng"])} {rl(e["call_rng"])} [{"; ".join(dnames)}].')
         out.append(f'End {nm}.\n')
     out.append('Definition table : list entry :=\n  [' + ';\n   '.join(f'{n}.entry' for n in names) + '].\n')
     out.append('(* distinct formulas of the tensors without normal noise, with the positivity guard of their entry *)')
